@@ -1,5 +1,7 @@
 pub mod c01;
 pub mod c02;
+pub mod c03;
+pub mod c04;
 pub mod c08;
 
 pub fn dispatch(prop: &str, tier: &str, seed: u64, path: Option<&str>) -> i32 {
@@ -12,6 +14,8 @@ pub fn dispatch(prop: &str, tier: &str, seed: u64, path: Option<&str>) -> i32 {
         match prop {
             "C08" => c08::child(&real_tier, seed, a),
             "C02" => c02::child(&real_tier, seed, a),
+            "C03" => c03::child(&real_tier, seed, a),
+            "C04" => c04::child(&real_tier, seed, a),
             _ => return 2,
         }
         return 0;
@@ -20,6 +24,8 @@ pub fn dispatch(prop: &str, tier: &str, seed: u64, path: Option<&str>) -> i32 {
         "C01" => c01::run(tier, seed),
         "C08" => c08::run(tier, seed),
         "C02" => c02::run(tier, seed),
+        "C03" => c03::run(tier, seed),
+        "C04" => c04::run(tier, seed),
         _ => {
             eprintln!("unknown property {prop}");
             2
